@@ -35,6 +35,71 @@ type gen struct {
 	funcs  map[string][]*ast.FuncDecl
 	consts map[string]string
 	events []string
+	fields map[string]string // unexported Keeper / StoreAPI field -> canonical name (by the field's TYPE)
+}
+
+// canonical names of the unexported Keeper / StoreAPI fields, by type: renaming such a field is harmless
+func fieldRole(typ string) string {
+	switch {
+	case strings.HasPrefix(typ, "collections.Map[") && strings.HasSuffix(typ, ",tftypes.DenomAuthorityMetadata]"):
+		return "denomAdmins"
+	case strings.HasPrefix(typ, "collections.KeySet["):
+		return "creator"
+	case typ == "tftypes.BankKeeper":
+		return "bankKeeper"
+	case typ == "tftypes.AccountKeeper":
+		return "accountKeeper"
+	case typ == "tftypes.CommunityPoolKeeper":
+		return "communityPoolKeeper"
+	case typ == "sudokeeper.Keeper":
+		return "sudoKeeper"
+	}
+	return ""
+}
+
+func fieldCanon(files []File) map[string]string {
+	out := map[string]string{}
+	for _, fl := range files {
+		for _, d := range fl.F.Decls {
+			gd, ok := d.(*ast.GenDecl)
+			if !ok {
+				continue
+			}
+			for _, sp := range gd.Specs {
+				ts, ok := sp.(*ast.TypeSpec)
+				if !ok || (ts.Name.Name != "Keeper" && ts.Name.Name != "StoreAPI") {
+					continue
+				}
+				st, ok := ts.Type.(*ast.StructType)
+				if !ok {
+					continue
+				}
+				byRole := map[string][]string{}
+				for _, f := range st.Fields.List {
+					if r := fieldRole(Nospace(f.Type)); r != "" {
+						for _, nm := range f.Names {
+							if !ast.IsExported(nm.Name) {
+								byRole[r] = append(byRole[r], nm.Name)
+							}
+						}
+					}
+				}
+				for r, names := range byRole {
+					if len(names) == 1 {
+						out[names[0]] = r
+					}
+				}
+			}
+		}
+	}
+	return out
+}
+
+func (g *gen) field(n string) string {
+	if c, ok := g.fields[n]; ok {
+		return c
+	}
+	return n
 }
 
 func (g *gen) render(e ast.Expr, env map[string]string) string {
@@ -58,7 +123,7 @@ func (g *gen) render(e ast.Expr, env map[string]string) string {
 				}
 			}
 		}
-		return g.render(x.X, env) + "." + x.Sel.Name
+		return g.render(x.X, env) + "." + g.field(x.Sel.Name)
 	case *ast.CallExpr:
 		var as []string
 		for i, a := range x.Args {
@@ -388,7 +453,7 @@ func main() {
 	keeper := ParseDir(repo + "/x/tokenfactory/keeper")
 	types := ParseDir(repo + "/x/tokenfactory/types")
 
-	g := &gen{funcs: map[string][]*ast.FuncDecl{}, consts: map[string]string{}}
+	g := &gen{funcs: map[string][]*ast.FuncDecl{}, consts: map[string]string{}, fields: fieldCanon(keeper)}
 	for _, fl := range keeper {
 		for _, d := range fl.F.Decls {
 			if fd, ok := d.(*ast.FuncDecl); ok && fd.Body != nil {
@@ -521,7 +586,7 @@ func main() {
 					for _, f := range st.Fields.List {
 						if mutable(f.Type) {
 							for _, nm := range f.Names {
-								fields = append(fields, x.Name.Name+"."+nm.Name+":"+Nospace(f.Type))
+								fields = append(fields, x.Name.Name+"."+g.field(nm.Name)+":"+Nospace(f.Type))
 							}
 						}
 					}
@@ -603,5 +668,7 @@ func main() {
 	}
 	fmt.Printf("Definition to_struct_reject_conditions : list string := %s.\n", coqList(conds))
 	fmt.Printf("Definition denom_format : string := %s.\n", CoqString(denomFmt))
+	fmt.Println("(* app/wasmext: what the contract message handler does to ONE dispatched sdk.Msg before it routes it (see wasm.go) *)")
+	fmt.Printf("Definition wasm_dispatch_events : list string := %s.\n", coqList(wasmDispatchEvents(repo)))
 	_ = sort.Strings
 }
